@@ -136,6 +136,33 @@ impl Engine for FaultEngine {
         } else {
             (sim, store, keys, ops)
         };
+        // "chunked batch" family (own tape): one drain of 130-380 small records on a device with the
+        // simulated ring, i.e. one batch that the submission code cuts into several chunks of 128
+        // entries; the sampled fault lands in one of the chunks (a failed, short or lost completion
+        // in a chunk that is not the last one must still fail the batch)
+        let mut cb = Tape::fresh(mix(seed, 0xC4B7));
+        let (sim, store, keys, ops) = if knobs.get("burst").is_none() && cb.chance(1, 14) {
+            let n = 130 + cb.below(250) as usize;
+            let keys: Vec<Vec<u8>> = (0..n).map(|i| format!("cb{i:04}").into_bytes()).collect();
+            let mut ops: Vec<Op> = (0..n)
+                .map(|key| Op::Insert { key, val: Val { len: 12 + cb.below(40) as usize, kind: ValKind::Plain }, ts: Ts::Auto, ttl: 0, bytes: false })
+                .collect();
+            ops.push(Op::Flush);
+            ops.push(Op::Get { key: cb.below(n as u32) as usize, bytes: false });
+            for _ in 0..4 {
+                ops.push(Op::Delete { key: cb.below(n as u32) as usize, ts: Ts::Auto });
+            }
+            ops.push(Op::Flush);
+            knobs.insert("mode".into(), *cb.pick(&[1i64, 1, 1, 2, 0]));
+            knobs.insert("points".into(), if thorough { 12 } else { 5 });
+            knobs.insert("chunked".into(), 1);
+            knobs.remove("flusher2");
+            let sim = SimConfig { shards: 1, workers: 1, max_steps: 1_500_000, ..sim };
+            let store = StoreCfg { data_blocks: n as u64 + 60, hash_bits: 8, ring: 1 + cb.below(2) as u8, ..store };
+            (sim, store, keys, ops)
+        } else {
+            (sim, store, keys, ops)
+        };
         Scenario {
             engine: "fault".into(),
             property: property.into(),
